@@ -119,6 +119,64 @@ def functions(block):
     return top
 
 
+MUT_IN_BLOCK = re.compile(
+    r"\.data\s*\.\s*(?:insert|remove|clear)\s*\(|\.(?:insert|remove|push_front|push_back|pop_front|pop_back|retain|drain|"
+    r"extend_from_slice|resize|clear|add_auto|add_with_id|trim_by_count|delete)\s*\(|\bstored_value\s*\.\s*value\s*=[^=]|"
+    r"\*\s*\w+\s*=[^=]|\[\w+(?:\s+as\s+usize)?\]\s*=[^=]|\.metadata\s*\.\s*(?:set_expiration|clear_expiration)")
+
+
+def conditional_marks(body):
+    """[(key parameter, condition)] for every `mark_modified(<param>)` whose innermost enclosing block is the body of an
+    `if <condition>` (not `if let`) that contains no mutation itself: the mark depends on an outcome computed before
+    (`if added > 0 { mark }`), as opposed to a mark that sits next to the mutation it reports.  Whether such a condition
+    is exactly "the key changed" cannot be read off the text: the reviewed ones are listed in Props/C08.lean and every
+    branch is exercised by the TCP matrix."""
+    out = []
+    for m in re.finditer(r"\bmark_modified\s*\(\s*&?\s*([a-z_][a-z_0-9]*)\s*\)", body):
+        depth, i = 0, m.start() - 1
+        while i >= 0:
+            if body[i] == "}":
+                depth += 1
+            elif body[i] == "{":
+                if depth == 0:
+                    break
+                depth -= 1
+            i -= 1
+        if i < 0:
+            continue
+        j = i - 1
+        while j >= 0 and body[j] not in ";{}":
+            j -= 1
+        header = re.sub(r"\s+", " ", body[j + 1:i]).strip()
+        k, d = i + 1, 1
+        while k < len(body) and d:
+            if body[k] == "{":
+                d += 1
+            elif body[k] == "}":
+                d -= 1
+            k += 1
+        mh = re.match(r"^(?:else\s+)?if\s+(.*)$", header)
+        if mh and not mh.group(1).startswith("let ") and not MUT_IN_BLOCK.search(body[i + 1:k - 1]):
+            out.append((m.group(1), mh.group(1)))
+    return out
+
+
+def shard_consts(src, strip_comments, fn_body):
+    """(shards per database, FNV offset basis, FNV prime) of get_shard_index, or None"""
+    text = strip_comments(src("storage/engine.rs"))
+    body = fn_body(text, "get_shard_index")
+    n = re.search(r"const\s+SHARDS_PER_DATABASE\s*:\s*usize\s*=\s*(\d+)\s*;", text)
+    if body is None or not n:
+        return None
+    off = re.search(r"FNV_OFFSET\s*:\s*u64\s*=\s*(0x[0-9a-fA-F_]+|\d+)", body)
+    pr = re.search(r"FNV_PRIME\s*:\s*u64\s*=\s*(0x[0-9a-fA-F_]+|\d+)", body)
+    shape = re.search(r"hash\s*\^=\s*byte\s+as\s+u64\s*;\s*hash\s*=\s*hash\s*\.\s*wrapping_mul\s*\(\s*FNV_PRIME\s*\)", body) \
+        and re.search(r"hash\s*%\s*SHARDS_PER_DATABASE\s+as\s+u64", body)
+    if not off or not pr or not shape:
+        return None
+    return int(n.group(1)), int(off.group(1).replace("_", ""), 0), int(pr.group(1).replace("_", ""), 0)
+
+
 def arg_name(expr):
     """`&key`, `key.clone()`, `key.to_vec()`, `key` -> `key`; anything else -> None"""
     e = expr.strip()
@@ -155,7 +213,7 @@ def rows(src, strip_comments):
                 marked.append(p)
         any_mark = bool(re.search(r"\bmark_(?:all_)?modified\s*\(", body))
         table[name] = {"name": name, "keyParams": kps, "mut": mut, "marked": marked, "anyMark": any_mark,
-                       "calls": [], "body": body, "params": params}
+                       "calls": [], "body": body, "params": params, "conditional": conditional_marks(body)}
         order.append(name)
     # delegation: self.<pub fn>(args) -> inherit through the key parameters that are passed on
     for name in order:
@@ -205,7 +263,7 @@ def rows(src, strip_comments):
         out.append({"name": name, "keyParams": r["keyParams"], "mutates": bool(r["mut"]), "why": r["mut"],
                     "marked": [p for p in r["keyParams"] if p in r["marked"]],
                     "marksAll": bool(r["anyMark"]) if not r["keyParams"] else False,
-                    "delegates": [c for c, _ in r["calls"]]})
+                    "delegates": [c for c, _ in r["calls"]], "conditional": r["conditional"]})
     names = [r["name"] for r in out]
     for must in ("set_value", "delete", "expire", "persist", "rename", "flush_db", "lpush", "zadd", "xadd", "hset", "sadd",
                  "register_watch", "unregister_watch", "was_modified_since", SWEEPER):
@@ -294,6 +352,20 @@ def generate(src, strip_comments, fn_body, header):
                                                    lean_str_list(r["marked"]), "true" if r["marksAll"] else "false"))
         lines.append(",\n".join(body))
         lines.append("]")
+    lines.append("")
+    lines.append("/-- `mark_modified(<key parameter>)` calls that sit alone inside an `if <condition>` computed from an outcome")
+    lines.append("    (function, key parameter, condition): every other mark sits next to the mutation it reports. -/")
+    if isinstance(t, str):
+        lines.append('def conditionalMarks : List (String × String × String) := extraction_failed "%s"' % t.replace('"', "'"))
+    else:
+        lines.append("def conditionalMarks : List (String × String × String) := [")
+        lines.append(",\n".join('  ("%s", "%s", "%s")' % (r["name"], p, c.replace("\\", "\\\\").replace('"', "'")) for r in t for p, c in r["conditional"]))
+        lines.append("]")
+    sc = shard_consts(src, strip_comments, fn_body)
+    lines.append("")
+    lines.append("/-- get_shard_index: (SHARDS_PER_DATABASE, FNV offset basis, FNV prime) of `hash ^= byte; hash *= prime; hash % shards`;")
+    lines.append("    (0, 0, 0) when the function no longer has that shape. -/")
+    lines.append("def shardConsts : Nat × Nat × Nat := (%d, %d, %d)" % (sc if sc else (0, 0, 0)))
     q = quirks(src, strip_comments, fn_body)
     lines.append("")
     lines.append("/-- How the watch list is kept (src/storage/commands/transactions.rs, Server::handle_exec):")
